@@ -189,6 +189,7 @@ func truncateIncompleteRecord(file *os.File, length int64) (int64, error) {
 		return length, nil
 	}
 	log.Warnw("Removing incomplete record from end of primary file", "file", file.Name(), "at", pos, "bytes", length-pos)
+	vhook.Point("mh.open.truncate")
 	if err := file.Truncate(pos); err != nil {
 		return 0, err
 	}
